@@ -377,6 +377,39 @@ fn iter_monitor<S: Source>(src: S, t: &Tree, label: &str, bad: &mut Vec<String>)
     }
 }
 
+/// several threads reading one source at once (each read of an archive works on its own clone of
+/// the reader): every read must return exactly the stored bytes
+fn concurrent_reads<S: Source + Sync>(src: &S, t: &Tree, label: &str, bad: &mut Vec<String>) -> u64 {
+    if t.files.is_empty() {
+        return 0;
+    }
+    let wrong: std::sync::Mutex<Vec<String>> = std::sync::Mutex::new(vec![]);
+    let n = std::sync::atomic::AtomicU64::new(0);
+    std::thread::scope(|s| {
+        for k in 0..4usize {
+            let (wrong, n) = (&wrong, &n);
+            s.spawn(move || {
+                for round in 0..6 {
+                    for (j, (id, ext, bytes)) in t.files.iter().enumerate() {
+                        if (j + k + round) % 2 == 0 {
+                            continue;
+                        }
+                        let sid = id.join(".");
+                        n.fetch_add(1, std::sync::atomic::Ordering::Relaxed);
+                        match src.read(&sid, ext) {
+                            Ok(c) if c.as_ref() == &bytes[..] => {}
+                            Ok(c) => wrong.lock().unwrap().push(format!("{label}: concurrent read of {sid}.{ext} gave {} bytes, stored {}", c.as_ref().len(), bytes.len())),
+                            Err(e) => wrong.lock().unwrap().push(format!("{label}: concurrent read of {sid}.{ext} failed: {e}")),
+                        }
+                    }
+                }
+            });
+        }
+    });
+    bad.extend(wrong.into_inner().unwrap().into_iter().take(3));
+    n.into_inner()
+}
+
 fn tree_of_fs(root: &Path) -> Tree {
     let mut t = Tree { files: vec![], dirs: vec![vec![]] };
     fn walk(t: &mut Tree, dir: &Path, at: Vec<String>) {
@@ -412,6 +445,7 @@ pub fn run(a: &Args) {
     let ga = cases.group("arch_cases", "list member * list (query * answer)");
     let mut labels: std::collections::BTreeMap<String, u64> = Default::default();
     let mut iter_bad = vec![];
+    let mut conc_reads = 0u64;
     let mut arch: Vec<(String, String, bool)> = vec![];
     let mut push = |cases: &mut Cases, t: &Tree, label: String, qa: Vec<String>| {
         *labels.entry(label.split(' ').next().unwrap().to_string()).or_insert(0) += 1;
@@ -444,6 +478,7 @@ pub fn run(a: &Args) {
         std::fs::write(base.join(format!("t{i}.x")), b"outside").unwrap();
         push(&mut cases, &t, "filesystem".into(), probe(FileSystem::new(&root).unwrap(), &t, true));
         iter_monitor(FileSystem::new(&root).unwrap(), &t, "filesystem", &mut iter_bad);
+        conc_reads += concurrent_reads(&FileSystem::new(&root).unwrap(), &t, "filesystem", &mut iter_bad);
         // archives
         let n_variants = if a.thorough() { 6 } else { 3 };
         for v in 0..n_variants {
@@ -477,10 +512,14 @@ pub fn run(a: &Args) {
                 std::fs::write(&zp, &zb).unwrap();
                 push(&mut cases, &ta, format!("zipfile {o:?}"), probe(Zip::open(&zp).unwrap(), &t, true));
                 iter_monitor(Zip::open(&zp).unwrap(), &ta, "zipfile", &mut iter_bad);
+                conc_reads += concurrent_reads(&Zip::open(&zp).unwrap(), &ta, "zipfile", &mut iter_bad);
+                conc_reads += concurrent_reads(&Zip::from_bytes(zb.clone()).unwrap(), &ta, "zip", &mut iter_bad);
                 let tp = base.join(format!("t{i}.tar"));
                 std::fs::write(&tp, &tb).unwrap();
                 push(&mut cases, &ta, format!("tarfile {o:?}"), probe(Tar::open(&tp).unwrap(), &t, true));
                 iter_monitor(Tar::open(&tp).unwrap(), &ta, "tarfile", &mut iter_bad);
+                conc_reads += concurrent_reads(&Tar::open(&tp).unwrap(), &ta, "tarfile", &mut iter_bad);
+                conc_reads += concurrent_reads(&Tar::from_bytes(tb.clone()).unwrap(), &ta, "tar", &mut iter_bad);
             }
         }
     }
@@ -506,11 +545,12 @@ pub fn run(a: &Args) {
     std::fs::write(
         format!("{}/srcdiff.summary.json", a.out),
         format!(
-            "{{\"engine\": \"srcdiff\", \"explain\": {{\"src_cases\": \"src_explain\", \"arch_cases\": \"arch_explain\"}}, \"evaluations\": {}, \"distinct_nontrivial\": {}, \"samples\": {}, \"distribution\": {{\"sources\": {}}}}}",
+            "{{\"engine\": \"srcdiff\", \"explain\": {{\"src_cases\": \"src_explain\", \"arch_cases\": \"arch_explain\"}}, \"evaluations\": {}, \"distinct_nontrivial\": {}, \"samples\": {}, \"distribution\": {{\"sources\": {}, \"concurrent_reads\": {}}}}}",
             cases.total(),
             cases.distinct_nontrivial(),
             cases.samples_json(),
-            jmap(&labels)
+            jmap(&labels),
+            conc_reads
         ),
     )
     .unwrap();
